@@ -701,6 +701,12 @@ func blobSlowStoreSim(r *simcore.Run) {
 			return
 		}
 		defer prov.Stop(context.Background())
+		// gocron's Shutdown polls the clock in a busy loop while it waits for running jobs; on the fake clock of the
+		// bubble a download still asleep would then never wake up. Whatever the exit path, downloads in flight end first.
+		defer func() {
+			stalling = false
+			time.Sleep(3 * interval)
+		}()
 		keyOf := func(src string) string {
 			src = strings.TrimPrefix(src, "/")
 			for _, k := range keys {
